@@ -144,12 +144,10 @@ theorem step_stopping_reqFree {s : St} (h : SInv s) (cfg : Cfg) (e : Ev) (hst : 
           refine (afterPrepare_afterStop _).2 ?_
           rw [(drainDone_ctl _ _ _).2.2.1]; exact hst
       · split
+        · exact reqFree_nil
         · split
           · exact reqFree_nil
-          · split
-            · exact reqFree_nil
-            · exact reqFree_of_bg (BG_andThen (drainDone_bg _ _ _) (fun _ => stopLoop_bg _ _ _ _))
-        · exact reqFree_nil
+          · exact reqFree_of_bg (BG_andThen (drainDone_bg _ _ _) (fun _ => stopLoop_bg _ _ _ _))
     · exact bad
   | consumerErr cid e =>
     simp only [step]
@@ -302,12 +300,10 @@ theorem step_req_keeps_stopping (cfg : Cfg) (s : St) (e : Ev) :
           simp only [andThen_fst]
           rw [ap, (drainDone_ctl _ _ _).2.2.1]
       · split
+        · intro _; rfl
         · split
           · intro _; rfl
-          · split
-            · intro _; rfl
-            · exact vac (reqFree_of_bg (BG_andThen (drainDone_bg _ _ _) (fun _ => stopLoop_bg _ _ _ _)))
-        · intro _; rfl
+          · exact vac (reqFree_of_bg (BG_andThen (drainDone_bg _ _ _) (fun _ => stopLoop_bg _ _ _ _)))
     · intro _; rfl
   | consumerErr cid e =>
     simp only [step]
